@@ -257,6 +257,10 @@ def lo_hi(t):
 
 def factorize(n):
     out = []
+    tz = (n & -n).bit_length() - 1
+    if tz:
+        out.append((2, tz))
+        n >>= tz
     for p in intconv._small_primes():
         if p * p > n:
             break
@@ -341,7 +345,26 @@ def gen_instances(rng, tier):
                 fs = gen_factors_float(rng, s, t, per_f)
             for (n, d) in fs:
                 inst.append({"id": len(inst), "S": s, "T": t, "C": c, "N": n, "D": d, "pf": pf_text(n, d)})
+    # Directed, in every run: integral source -> floating target with factors so large that the SCALING step (done in the
+    # floating type) leaves the target's finite range for some source values and not for others; factors the target
+    # cannot represent at all (the conversion must not compile); and the reciprocal direction (tiny results).
+    for s in HUGE_SOURCES:
+        for t, facs in HUGE_FACTORS.items():
+            for (n, d) in facs:
+                inst.append({"id": len(inst), "S": s, "T": t, "C": t, "N": n, "D": d, "pf": pf_text(n, d), "directed": True})
     return inst
+
+
+HUGE_SOURCES = ["i8", "u8", "i32", "i64", "u64"]
+HUGE_FACTORS = {
+    "f32": [(10 ** 20, 1), (10 ** 24, 1), (10 ** 30, 1), (10 ** 37, 1), (2 ** 100, 1), (3 * 10 ** 36, 7),
+            (10 ** 40, 1), (2 ** 130, 1),                      # not representable in float: must not compile
+            (1, 10 ** 30), (1, 10 ** 37)],
+    "f64": [(10 ** 300, 1), (10 ** 306, 1), (2 ** 1000, 1), (1, 10 ** 300)],
+    # long double: powers of two only — checked_int_pow<long double> is exact on them; for other huge bases
+    # get_value<long double> is tens of ulps off (finding F12 of C11/C16), which is not C05's subject
+    "f80": [(2 ** 16330, 1), (2 ** 16378, 1), (1, 2 ** 16330)],
+}
 
 
 # ------------------------------------------------------------------------------------------------
@@ -363,6 +386,12 @@ def int_points(rng, ins, count):
     else:
         _, p, _ = FLT[c]
         bounds += [2 ** p, -(2 ** p), 2 ** (p - 1), Fraction(2 ** p * d, n), 2 ** p + 2 ** (p - 24) if p > 24 else 2 ** p]
+        m = fmax(c) * d / n                     # the scaling step leaves the finite range beyond ±max(C)/factor
+        bounds += [m, -m, m / 2, 2 * m]
+        for sgn in (1, -1):                     # … and the integers around the floating values adjacent to that threshold
+            for v in neighbours(c, sgn * m, 4):
+                if not isinstance(v, str) and abs(v) < 1 << 70:
+                    pts.update({int(v) - 1, int(v), int(v) + 1})
         if is_int(t):
             l, h = lo_hi(t)
             bounds += [Fraction(l * d, n), Fraction(h * d, n), Fraction((h + 1) * d, n)]
@@ -812,8 +841,26 @@ int main() {
 '''
 
 
+def nd_text(v):
+    """Factor component for records and messages: the integer itself, or its factorisation when it is huge."""
+    return v if v < 1 << 63 else "*".join(f"{q}^{e}" for q, e in factorize(v))
+
+
+def nd_parse(v):
+    if isinstance(v, int):
+        return v
+    r = 1
+    for tok in str(v).split("*"):
+        q, _, e = tok.partition("^")
+        r *= int(q) ** int(e or 1)
+    return r
+
+
 def mag_expr(v):
-    return f"au::mag<{v}ull>()"
+    """C++ expression for the magnitude of the positive integer v; beyond 2^63 as a product of prime powers."""
+    if v < 1 << 63:
+        return f"au::mag<{v}ull>()"
+    return "(" + " * ".join(f"au::pow<{e}>(au::mag<{q}ull>())" for q, e in factorize(v)) + ")"
 
 
 def _entry_line(ins):
@@ -1013,11 +1060,22 @@ def judge(ins, x, r):
         return out
     if is_int(s) and not is_int(t):
         exact = Fraction(x * n, d)
-        if ovf and abs(exact) <= fmax(t):
-            out.append(("ovf-unreal", "overflow reported although the exact value x*N/D is within the floating target's range", {}))
+        # the scaling step works on the source value cast to the floating type and on get_value<T>(factor) as the
+        # implementation evaluates it (observed, G line): its exact value is their exact product (quotient for 1/D)
+        gv = ins.get("_gv")
+        xc = rne(t, Fraction(x))
+        step = None if (gv is None or isinstance(gv, str)) else (xc / gv if (n == 1 and d != 1) else xc * gv)
+        if ovf and abs(exact) <= fmax(t) and (step is None or abs(step) <= fmax(t)):
+            out.append(("ovf-unreal", "overflow reported although the exact value x*N/D and the exact value of the scaling step are "
+                        "within the floating target's finite range", {}))
         if not lossy:
             if isinstance(val, str) or ubv:
-                out.append(("cleared-unsound", "not reported lossy, but the result is not finite / UB", {"got": r["val"], "ub": ubv}))
+                _, pc, _ = FLT[t]
+                out.append(("cleared-unsound", "integral source, floating target: not reported lossy, but the scaled value leaves the target's "
+                            "finite range (result not finite) / UB",
+                            {"got": r["val"], "ub": ubv, "want": fstr(exact), "mid": r.get("mid"), "mid_is_inf": val in ("inf", "-inf"),
+                             "exact_product_within_one_rounding_of_max": fmax(t) * (1 - Fraction(4, 2 ** pc)) <= abs(exact) <= fmax(t) * (1 + Fraction(4, 2 ** pc)),
+                             "target_is_common": True}))
             elif val != exact:
                 _, p, emax = FLT[t]
                 tol = max(abs(exact) * Fraction(4, 2 ** p), _pow2(1 - emax - p + 1))
@@ -1034,7 +1092,7 @@ def judge(ins, x, r):
             out.append(("cleared-unsound", "not reported lossy (finite input), but the computed value or its cast to the target is not finite / "
                         "not the correctly rounded cast",
                         {"mid": fstr(mid), "want": fstr(want), "got": r["val"], "ub": ubv, "mid_is_inf": mid in ("inf", "-inf"),
-                         "exact_product_within_one_rounding_of_max": fmax(c) < ex <= fmax(c) * (1 + Fraction(4, 2 ** pc)),
+                         "exact_product_within_one_rounding_of_max": fmax(c) * (1 - Fraction(4, 2 ** pc)) <= ex <= fmax(c) * (1 + Fraction(4, 2 ** pc)),   # both sides: fl(N/D) may be rounded up
                          "target_is_common": t == c}))
     return out
 
@@ -1236,7 +1294,7 @@ def explore(tier, seed, rng, wd, only=None, only_casts=None):
                 _, tb, ts = INT_TYPES[t]
                 all_reqs.append({"kind": "S", "ins": i, "h": [f"S {i['id']} {i['N']} {i['D']} {cb} {int(cs)} {tb} {int(ts)}"], "hn": 1,
                              "m": [f"c05 sweep {s} {t} {i['N']} {i['D']}"], "w": cnt})
-            else:
+            elif i["N"] < 1 << 63 and i["D"] < 1 << 63:
                 all_reqs.append({"kind": "F", "ins": i, "h": [f"F {i['id']} {i['N']} {i['D']} {FLT[t][1]}"], "hn": 1, "m": [], "w": cnt})
         if not is_int(c):
             pf = pf_text(i["D"], 1) if (i["N"] == 1 and i["D"] != 1) else i["pf"]
@@ -1261,7 +1319,7 @@ def explore(tier, seed, rng, wd, only=None, only_casts=None):
             violations.append({"what": f"{ins['S']}->{ins['T']} x {ins['N']}/{ins['D']}: the conversion / its <T> checkers do not compile under {cfg} "
                                f"although the model (get_value static_asserts in the common type) says they do", "class": "corr-compiles-pos",
                                "no_input": True, "broken": "correspondence: Au.compilesT",
-                               "rec": {"kind": "corr", "observable": "compiles", "S": ins["S"], "T": ins["T"], "N": ins["N"], "D": ins["D"],
+                               "rec": {"kind": "corr", "observable": "compiles", "S": ins["S"], "T": ins["T"], "N": nd_text(ins["N"]), "D": nd_text(ins["D"]),
                                        "config": cfg, "count": len(rejected)}, "detail": err})
         if exe is None:
             violations.append({"what": f"harness does not compile under {cfg}: the model's compilesT predicate or the public "
@@ -1305,17 +1363,19 @@ def explore(tier, seed, rng, wd, only=None, only_casts=None):
                     add_violation({"what": f"{msg} ({s}->{t}, x={base['x']})", "class": f"{ob}-{s}-{t}", "rec": dict(base, observable=ob, impl=a, **extra)})
                 continue
             ins = rq["ins"]
-            s, t, c, n, d = ins["S"], ins["T"], ins["C"], ins["N"], ins["D"]
+            s, t, c, N_, D_ = ins["S"], ins["T"], ins["C"], ins["N"], ins["D"]
+            n, d = nd_text(N_), nd_text(D_)          # text form for records and messages (huge factors as factorisations)
             base = {"S": s, "T": t, "N": n, "D": d, "config": cfg}
             if kind == "G":
                 a, b = ha[0], ma[0]
                 stats["gv_compared"] += 1
                 want = b.split()
                 got = parse_hex(kv(a)["gv"])
+                ins["_gv"] = got
                 if want[0] != "ok" or from_me(want[1]) != got:
                     add_violation({"what": f"get_value<{c}> of the factor: model and implementation differ", "class": "corr-gv", "no_input": True,
                                    "broken": "correspondence: gvFlt", "rec": dict(base, kind="corr", observable="gv", model=b, impl=a)})
-                ex = Fraction(d, 1) if (n == 1 and d != 1) else Fraction(n, d)
+                ex = Fraction(D_, 1) if (N_ == 1 and D_ != 1) else Fraction(N_, D_)
                 if isinstance(got, str) or abs(got - ex) > abs(ex) * Fraction(3, 2 ** FLT[c][1]):
                     add_violation({"what": f"get_value<{c}>({ex}) is not within 3 ulp of the exact value", "class": "gv-accuracy",
                                    "rec": dict(base, kind="oracle", observable="gv", impl=a)})
@@ -1444,9 +1504,10 @@ def explore(tier, seed, rng, wd, only=None, only_casts=None):
                            f"decltype({mag_expr(ins['D'])}), {ident}, {intdiv}>::conv(in, o); return int(o.vi); }}\n")
         rc, out = cxx(p, None, san=False, syntax_only=True)
         return ins, rc, out
-    for ins, rc, out in pmap(probe, dead[: (6 if tier == "quick" else 24)]):
+    probes = [i for i in dead if i.get("directed")] + [i for i in dead if not i.get("directed")][: (6 if tier == "quick" else 24)]
+    for ins, rc, out in pmap(probe, probes):
         stats["neg_probes"] += 1
-        base = {"S": ins["S"], "T": ins["T"], "N": ins["N"], "D": ins["D"], "kind": "corr", "observable": "compiles"}
+        base = {"S": ins["S"], "T": ins["T"], "N": nd_text(ins["N"]), "D": nd_text(ins["D"]), "kind": "corr", "observable": "compiles"}
         if rc == 0:
             violations.append({"what": "conversion compiles although the model (get_value static_asserts) says it must not", "class": "corr-compiles",
                                "no_input": True, "broken": "correspondence: Au.compilesT", "rec": base})
@@ -1592,7 +1653,7 @@ def replay(path):
     s, t = r["S"], r["T"]
     wd = workdir(PROP + "_replay")
     cfg = r.get("config", "g++ -std=c++14")
-    n, d = int(r.get("N", 1)), int(r.get("D", 1))
+    n, d = nd_parse(r.get("N", 1)), nd_parse(r.get("D", 1))
     x = r.get("x")
     ins = {"id": 0, "S": s, "T": t, "C": common(s, t), "N": n, "D": d, "pf": pf_text(n, d)}
     casts = None
